@@ -1004,7 +1004,7 @@ fn run_child(k: usize, n: usize, start: usize, trace: bool, tier: Tier, seed: u6
 
 fn run_shard(k: usize, n: usize, tier: Tier, seed: u64) -> ShardResult {
     let mut res = ShardResult { done: 0, dist: BTreeMap::new(), failures: Vec::new(), notes: Vec::new() };
-    let hang_secs = if tier == Tier::Quick { 90 } else { 240 };
+    let hang_secs = if tier == Tier::Quick { 300 } else { 600 };
     let mut start = 0usize;
     let mut trace = false;
     let mut incidents = 0;
